@@ -521,6 +521,188 @@ async fn h_pf<T: EchoScalar + DeserializeOwned + JsonSchema + Send + Sync + 'sta
     Ok(HttpResponseOk(e))
 }
 
+// ---- JSON bodies that go through serde's buffering (flatten, untagged and
+// tagged enums with data): floats are echoed as bits, integers in decimal ----
+
+fn f64b(n: &str, v: &f64) -> (String, Fv) {
+    (n.to_string(), Fv::One(Sv::Int(v.to_bits().to_string())))
+}
+fn f32b(n: &str, v: &f32) -> (String, Fv) {
+    (n.to_string(), Fv::One(Sv::Int(v.to_bits().to_string())))
+}
+
+#[derive(Deserialize, JsonSchema)]
+pub struct Inner {
+    pub x: f64,
+    pub y: f32,
+    pub p: u64,
+    pub q: i64,
+    pub b: bool,
+    pub s: String,
+    pub o: Option<f64>,
+}
+impl Inner {
+    fn fields(&self, pre: &str) -> Vec<(String, Fv)> {
+        vec![
+            f64b(&format!("{}x", pre), &self.x),
+            f32b(&format!("{}y", pre), &self.y),
+            one(&format!("{}p", pre), &self.p),
+            one(&format!("{}q", pre), &self.q),
+            one(&format!("{}b", pre), &self.b),
+            one(&format!("{}s", pre), &self.s),
+            (format!("{}o", pre), Fv::Opt(self.o.map(|v| Sv::Int(v.to_bits().to_string())))),
+        ]
+    }
+}
+#[derive(Deserialize, JsonSchema)]
+pub struct BFlat {
+    pub id: u32,
+    #[serde(flatten)]
+    pub inner: Inner,
+}
+#[derive(Deserialize, JsonSchema)]
+#[serde(untagged)]
+pub enum Un {
+    F(f64),
+    S(String),
+    P { x: f32, n: i64 },
+}
+impl Un {
+    fn fields(&self, pre: &str) -> Vec<(String, Fv)> {
+        match self {
+            Un::F(v) => vec![en(&format!("{}kind", pre), "F"), f64b(&format!("{}0", pre), v)],
+            Un::S(v) => vec![en(&format!("{}kind", pre), "S"), one(&format!("{}0", pre), v)],
+            Un::P { x, n } => {
+                vec![en(&format!("{}kind", pre), "P"), f32b(&format!("{}x", pre), x), one(&format!("{}n", pre), n)]
+            }
+        }
+    }
+}
+#[derive(Deserialize, JsonSchema)]
+pub struct BUn {
+    pub u: Un,
+    pub v: Vec<Un>,
+}
+#[derive(Deserialize, JsonSchema)]
+#[serde(tag = "t")]
+pub enum It {
+    A { x: f64, p: u64 },
+    B { y: f32 },
+    C,
+    /// flatten inside an enum variant: buffered twice
+    V {
+        id: u32,
+        #[serde(flatten)]
+        inner: Inner,
+    },
+}
+#[derive(Deserialize, JsonSchema)]
+#[serde(tag = "t", content = "c")]
+pub enum Ad {
+    A(f64),
+    B { x: f32, q: i64 },
+    W(u128),
+    Z { z: i128 },
+    N,
+}
+#[derive(Deserialize, JsonSchema)]
+pub struct BTag {
+    pub it: It,
+    pub ad: Ad,
+}
+/// 128-bit integers in the buffered positions (serde's private Content buffer
+/// has no 128-bit variant: the open finding K9c)
+#[derive(Deserialize, JsonSchema)]
+pub struct Inner128 {
+    pub w: u128,
+    pub z: i128,
+}
+#[derive(Deserialize, JsonSchema)]
+#[serde(tag = "t")]
+pub enum It128 {
+    A { w: u128 },
+    C,
+}
+#[derive(Deserialize, JsonSchema)]
+#[serde(untagged)]
+pub enum Un128 {
+    P { z: i128 },
+    S(String),
+}
+#[derive(Deserialize, JsonSchema)]
+pub struct B128 {
+    pub id: u32,
+    pub it: It128,
+    pub un: Un128,
+    #[serde(flatten)]
+    pub inner: Inner128,
+}
+fn en(n: &str, v: &str) -> (String, Fv) {
+    (n.to_string(), Fv::One(Sv::Enum(v.to_string())))
+}
+impl EchoStruct for BFlat {
+    fn fields(&self) -> Vec<(String, Fv)> {
+        let mut v = vec![one("id", &self.id)];
+        v.extend(self.inner.fields(""));
+        v
+    }
+}
+impl EchoStruct for BUn {
+    fn fields(&self) -> Vec<(String, Fv)> {
+        let mut v = self.u.fields("u.");
+        for (i, e) in self.v.iter().enumerate() {
+            v.extend(e.fields(&format!("v{}.", i)));
+        }
+        v
+    }
+}
+impl EchoStruct for BTag {
+    fn fields(&self) -> Vec<(String, Fv)> {
+        let mut v = match &self.it {
+            It::A { x, p } => vec![en("it", "A"), f64b("it.x", x), one("it.p", p)],
+            It::B { y } => vec![en("it", "B"), f32b("it.y", y)],
+            It::C => vec![en("it", "C")],
+            It::V { id, inner } => {
+                let mut v = vec![en("it", "V"), one("it.id", id)];
+                v.extend(inner.fields("it."));
+                v
+            }
+        };
+        v.extend(match &self.ad {
+            Ad::A(x) => vec![en("ad", "A"), f64b("ad.0", x)],
+            Ad::B { x, q } => vec![en("ad", "B"), f32b("ad.x", x), one("ad.q", q)],
+            Ad::W(w) => vec![en("ad", "W"), one("ad.0", w)],
+            Ad::Z { z } => vec![en("ad", "Z"), one("ad.z", z)],
+            Ad::N => vec![en("ad", "N")],
+        });
+        v
+    }
+}
+impl EchoStruct for B128 {
+    fn fields(&self) -> Vec<(String, Fv)> {
+        let mut v = vec![one("id", &self.id)];
+        v.extend(match &self.it {
+            It128::A { w } => vec![en("it", "A"), one("it.w", w)],
+            It128::C => vec![en("it", "C")],
+        });
+        v.extend(match &self.un {
+            Un128::P { z } => vec![en("un", "P"), one("un.z", z)],
+            Un128::S(s) => vec![en("un", "S"), one("un.0", s)],
+        });
+        v.push(one("w", &self.inner.w));
+        v.push(one("z", &self.inner.z));
+        v
+    }
+}
+async fn h_bx<T: EchoStruct + DeserializeOwned + JsonSchema + Send + Sync + 'static>(
+    rqctx: RequestContext<Ctx>,
+    b: TypedBody<T>,
+) -> R {
+    let mut e = enter(&rqctx);
+    e.structs.push(b.into_inner().fields());
+    Ok(HttpResponseOk(e))
+}
+
 // ---- a wide query struct and body endpoints with a large limit (large-scope slice) ----
 
 #[derive(Deserialize, JsonSchema)]
@@ -635,6 +817,10 @@ pub fn build_api() -> (ApiDescription<Ctx>, Ctx) {
         };
     }
     reg!("qwide", h_qwide, Method::GET, JSON, "/qwide");
+    reg!("bx_flat", h_bx::<BFlat>, Method::PUT, JSON, "/bx/flat");
+    reg!("bx_un", h_bx::<BUn>, Method::PUT, JSON, "/bx/un");
+    reg!("bx_tag", h_bx::<BTag>, Method::PUT, JSON, "/bx/tag");
+    reg!("bx_128", h_bx::<B128>, Method::PUT, JSON, "/bx/128");
     reg!("p_f32", h_pf::<f32>, Method::GET, JSON, "/p/f32/{v}");
     reg!("p_f64", h_pf::<f64>, Method::GET, JSON, "/p/f64/{v}");
     reg!("qf_f32", h_qf::<f32>, Method::GET, JSON, "/qf/f32");
